@@ -102,6 +102,28 @@ class C14(PropertyCheck):
         "IEEE rounding of pixel-centre coordinates: theorems are over an exact ordered field; "
         "coordinates are compared within 1e-9 relative",
     ]
+    modelled_functions = [
+        "autoarray/structures/arrays/array_2d_util.py:resized_array_2d_from",
+        "autoarray/structures/arrays/array_2d_util.py:extracted_array_2d_from",
+        "autoarray/structures/arrays/array_2d_util.py:convert_array_2d",
+        "autoarray/structures/arrays/uniform_2d.py:AbstractArray2D.resized_from",
+        "autoarray/structures/arrays/uniform_2d.py:AbstractArray2D.padded_before_convolution_from",
+        "autoarray/structures/arrays/uniform_2d.py:AbstractArray2D.trimmed_after_convolution_from",
+        "autoarray/structures/arrays/uniform_2d.py:AbstractArray2D.zoomed_around_mask",
+        "autoarray/mask/mask_2d.py:Mask2D.resized_from",
+        "autoarray/mask/mask_2d.py:Mask2D.trimmed_array_from",
+        "autoarray/mask/mask_2d.py:Mask2D.zoom_region",
+        "autoarray/mask/mask_2d_util.py:blurring_mask_2d_from",
+        "autoarray/mask/derive/mask_2d.py:DeriveMask2D.blurring_from",
+        "autoarray/dataset/imaging/dataset.py:Imaging.__init__",
+        "autoarray/dataset/imaging/dataset.py:Imaging.apply_mask",
+        "autoarray/dataset/imaging/dataset.py:Imaging.grids",
+        "autoarray/dataset/grids.py:GridsDataset.uniform",
+        "autoarray/structures/grids/uniform_2d.py:Grid2D.from_mask",
+        "autoarray/structures/grids/grid_2d_util.py:grid_2d_slim_via_mask_from",
+        "autoarray/geometry/geometry_util.py:central_pixel_coordinates_2d_from",
+        "autoarray/geometry/geometry_util.py:central_scaled_coordinate_2d_from",
+    ]
     assumptions = [
         "shapes >= 1 on both axes; at least one unmasked pixel for zoom; odd kernel shapes; "
         "trim kernels smaller than the array; noise maps positive",
